@@ -1303,8 +1303,8 @@ func TestC15(t *testing.T) {
 	p.OnPoint = agedOnPoint
 	p.Install()
 	defer sched.Uninstall()
-	n := r.N(600, 30_000)
-	nAged := r.N(80, 2_000)
+	n := r.N(600, 15_000)
+	nAged := r.N(80, 1_000)
 	// the aged family opens its silent connections now; they are used after the regular cases
 	aged := make([]*agedCase, nAged)
 	mon.Parallel(nAged, 0, func(j int) {
